@@ -186,7 +186,7 @@ func runC19(c *Ctx, idx int) {
 		return w
 	}
 	c.SetInput(func() any { return wit(nil) })
-	cr := c.applyReader(src, &distiller.Options{OriginalURL: mustURL(page), SkipPagination: true})
+	cr := c.applyVariant(src, &distiller.Options{OriginalURL: mustURL(page), SkipPagination: true}, idx/7)
 	if !c.usable(cr) {
 		return
 	}
